@@ -26,7 +26,7 @@ ids 300..309 are multipath keys with 2 derivation paths, 310..319 with 3.
                                           ok iff (without = ERR) ↔ (with = ERR ∨ figure > L);
                                           <figure> is the library's own figure for <ast>,
                                           `-` = the script has no satisfaction
-  C sortedmulti-new <k> <n>               ok | ERR   (`Threshold::<Pk, 20>::new` + `*::new_sortedmulti`)
+  C sortedmulti-new <ctx> <k> <k1,k2,..> <entry>  ok | ERR   (`Threshold::<Pk, 20>::new` + `*::new_sortedmulti`)
   J t4 <class> <entry> <ast> <desc> <ms>  ok unless the descriptor parser accepted and the
                                           miniscript parser with `Ctx::CONSENSUS` rejected
 -/
@@ -205,9 +205,9 @@ def opsValidate (t : Tables) (kind op : String) (args : List String) : Option St
     let expectReject := isErr withV || over
     pure (if isErr withoutV == expectReject then "ok"
           else if isErr withoutV then "bad:rejected-within-limit" else "bad:over-limit-accepted")
-  | "C", "sortedmulti-new", [k, n] => do
-    let k ← k.toNat?; let n ← n.toNat?
-    pure (if acceptsSortedMulti k (List.replicate n 0) then "ok" else "ERR")
+  | "C", "sortedmulti-new", [ctx, k, keys, _entry] => do
+    let ctx ← parseCtx ctx; let k ← k.toNat?; let ks ← (keys.splitOn ",").mapM String.toNat?
+    pure (if acceptsSortedMulti t.keyEnv (keyInfoOf t) ctx k ks then "ok" else "ERR")
   | "J", "t4", [_class, _entry, _ast, desc, msv] =>
     some (if !isErr desc && isErr msv then "bad:descriptor-accepts-what-consensus-params-reject" else "ok")
   | _, _, _ => none
